@@ -1009,3 +1009,416 @@ Proof.
   destruct (slice_ok o' 0 (len d) ltac:(lia) ltac:(lia) ltac:(lia)) as (w & -> & _). rewrite abind_lift_ok.
   apply ret_rule; lia.
 Qed.
+
+(* ===================================================================================
+   9. receive(): the Multi container walk over bytes, nested containers, fragment dispatch.
+      Tag slices of sub-packets that are decoded completely are paid for by their own header and
+      tag bytes (4*nt <= 2 * bytes consumed outside the body); only the ONE sub-packet on which
+      the walk fails can have an unpaid tag slice.
+   =================================================================================== *)
+Lemma rd_bytes_spec2 s b r : rd_bytes s = Ok (b, r) ->
+  len b + len r + 1 <= len s /\ (bytes_ok s = true -> bytes_ok b = true /\ bytes_ok r = true).
+Proof.
+  unfold rd_bytes. destruct (rd_prefix s) as [[o r0]|e|] eqn:E0; cbn [bind]; try discriminate.
+  destruct (rd_prefix_spec _ _ _ E0) as [A0 _]. pose proof (adv_len _ _ _ A0) as L0. destruct o as [l|].
+  - destruct (l =? 0); [discriminate|]. destruct (MaxSlice <? l); [discriminate|].
+    destruct (len r0 <? l) eqn:El; [discriminate|]. intros H. inversion H; subst. pose proof (len_nonneg r0).
+    destruct (Z.leb_spec 0 l).
+    + rewrite len_take', len_drop by lia. split; [lia|]. intros Hs. pose proof (adv_ok _ _ _ A0 Hs).
+      split; [apply bytes_ok_take | apply bytes_ok_drop]; assumption.
+    + unfold take, drop. replace (Z.to_nat l) with 0%nat by lia. cbn [firstn skipn]. change (len (@nil Z)) with 0.
+      split; [lia|]. intros Hs. split; [reflexivity | apply (adv_ok _ _ _ A0 Hs)].
+  - intros H. inversion H; subst. change (len (@nil Z)) with 0. split; [lia|]. intros Hs.
+    split; [reflexivity | apply (adv_ok _ _ _ A0 Hs)].
+Qed.
+
+Lemma rd_tags_stream_spec k : forall s ts r, rd_tags_stream k s = Ok (ts, r) -> adv (4 * Z.of_nat k) s r.
+Proof.
+  induction k as [|k IH]; intros s ts r; cbn [rd_tags_stream].
+  - intros H; inversion H; subst. apply adv_refl.
+  - unfold rd_u32. destruct (rd_uN 4 s) as [[t r0]|e|] eqn:E; cbn [bind]; try discriminate.
+    destruct (t =? 0); [discriminate|].
+    destruct (rd_tags_stream k r0) as [[ts0 r1]|e|] eqn:E1; cbn [bind]; try discriminate.
+    intros H. inversion H; subst.
+    eapply adv_weak; [eapply adv_trans; [apply (rd_uN_spec 4 _ _ _ ltac:(lia) E) | eapply IH; eassumption] | lia].
+Qed.
+
+(* a successfully decoded stream-form packet: its tag slice is paid for *)
+Lemma packet_stream_cost s p r : bytes_ok s = true -> outcome (packet_stream s) = Ok (p, r) ->
+  alloc (packet_stream s) + 2 * (len (p_body p) + len r) <= 2 * len s /\
+  bytes_ok (p_body p) = true /\ bytes_ok r = true /\ len (p_body p) + len r + 46 <= len s.
+Proof.
+  intros Hs. unfold packet_stream.
+  destruct (rd_u8 s) as [[id r0]|e|] eqn:E0; [rewrite abind_lift_ok | rewrite abind_lift_err; discriminate | cbn; discriminate].
+  destruct (rd_u8_spec _ _ _ E0) as [A0 _]. pose proof (adv_ok _ _ _ A0 Hs) as H0. apply adv_len in A0.
+  unfold rd_u16, rd_u64.
+  destruct (rd_uN 2 r0) as [[job r1]|e|] eqn:E1; [rewrite abind_lift_ok | rewrite abind_lift_err; discriminate | cbn; discriminate].
+  destruct (rd_uN_spec 2 _ _ _ ltac:(lia) E1) as [A1 _]. pose proof (adv_ok _ _ _ A1 H0) as H1. apply adv_len in A1.
+  destruct (rd_uN 2 r1) as [[nt r2]|e|] eqn:E2; [rewrite abind_lift_ok | rewrite abind_lift_err; discriminate | cbn; discriminate].
+  destruct (rd_uN_spec 2 _ _ _ ltac:(lia) E2) as [A2 Hnt]. specialize (Hnt H1). pose proof (adv_ok _ _ _ A2 H1) as H2. apply adv_len in A2.
+  destruct (rd_uN 8 r2) as [[flags r3]|e|] eqn:E3; [rewrite abind_lift_ok | rewrite abind_lift_err; discriminate | cbn; discriminate].
+  destruct (rd_uN_spec 8 _ _ _ ltac:(lia) E3) as [A3 _]. pose proof (adv_ok _ _ _ A3 H2) as H3. apply adv_len in A3.
+  destruct (rd_devid r3) as [[dev r4]|e|] eqn:E4; [rewrite abind_lift_ok | rewrite abind_lift_err; discriminate | cbn; discriminate].
+  pose proof (rd_devid_spec _ _ _ E4) as A4. pose proof (adv_ok _ _ _ A4 H3) as H4. apply adv_len in A4.
+  rewrite abind_mk. unfold outcome, alloc. cbn [fst snd].
+  destruct (rd_tags_stream (Z.to_nat (Z.min nt PacketMaxTags)) r4) as [[tags r5]|e|] eqn:E5;
+    [rewrite abind_lift_ok | rewrite abind_lift_err; cbn; discriminate | cbn; discriminate].
+  pose proof (rd_tags_stream_spec _ _ _ _ E5) as A5. pose proof (adv_ok _ _ _ A5 H4) as H5. apply adv_len in A5.
+  destruct (rd_bytes r5) as [[body r6]|e|] eqn:E6; [rewrite abind_lift_ok | rewrite abind_lift_err; cbn; discriminate | cbn; discriminate].
+  destruct (rd_bytes_spec2 _ _ _ E6) as [L6 B6]. specialize (B6 H5). destruct B6 as [Hb Hr].
+  cbn [ret fst snd]. intros H. inversion H; subst. cbn [p_body].
+  split; [|split; [assumption|split; [assumption|]]]; unfold PacketMaxTags in *; lia.
+Qed.
+
+Definition slack {X} (a : A X) : Z := match outcome a with Ok _ => 0 | _ => TagsMax end.
+
+Lemma clus_add_np g c p st : clus_add g c p st <> Panic.
+Proof.
+  unfold clus_add. destruct (match c_first c with Some (i, j) => negb ((i =? p_id p) && (j =? p_job p)) | None => false end); [discriminate|].
+  destruct (is_nil (p_body p)); cbn [c_n c_e].
+  - destruct (c_n c =? 0); [discriminate|]. destruct (_ <? _); discriminate.
+  - destruct (c_n c + 1 =? 0); [discriminate|]. destruct (_ <? _); discriminate.
+Qed.
+
+Lemma slack_ret {X} (x : X) B : 0 <= B -> np (ret x) /\ alloc (ret x) <= B + slack (ret x).
+Proof. intros. split; [discriminate|]. cbn. lia. Qed.
+Lemma slack_lift {X} (r : res X) B : r <> Panic -> 0 <= B -> np (lift r) /\ alloc (lift r) <= B + slack (lift r).
+Proof. intros Hr HB. split; [exact Hr|]. unfold slack, lift, alloc, outcome, TagsMax. cbn [fst snd]. destruct r; lia. Qed.
+
+Lemma recv_unpack_spec fuel :
+  (forall self st p, bytes_ok (p_body p) = true ->
+     np (recv_b fuel self st p) /\ alloc (recv_b fuel self st p) <= 2 * len (p_body p) + slack (recv_b fuel self st p)) /\
+  (forall self st x body, bytes_ok body = true ->
+     np (unpack_b fuel self st x body) /\ alloc (unpack_b fuel self st x body) <= 2 * len body + slack (unpack_b fuel self st x body)).
+Proof.
+  induction fuel as [|f [IHr IHu]].
+  - split; intros; cbn [recv_b unpack_b]; apply slack_lift; try discriminate; apply Z.mul_nonneg_nonneg; try lia; apply len_nonneg.
+  - split.
+    + intros self st p Hb. cbn [recv_b]. pose proof (len_nonneg (p_body p)).
+      destruct ((p_id p <? 2) && is_nil (p_body p) && ((p_flags p =? 0) || (p_flags p =? 4))); [apply slack_ret; lia|].
+      destruct (negb (fl_bit 7 (p_flags p)) && negb (zlist_eqb self (p_dev p))); [apply slack_lift; [discriminate|lia]|].
+      destruct (fl_bit 6 (p_flags p)); [apply slack_ret; lia|].
+      destruct ((p_id p =? 4) && negb (fl_bit 8 (p_flags p))); [apply slack_ret; lia|].
+      destruct (fl_bit 1 (p_flags p)).
+      { destruct (fl_len (p_flags p) =? 0); [apply slack_lift; [discriminate|lia]|]. apply IHu. exact Hb. }
+      destruct (fl_bit 0 (p_flags p)); [|apply slack_ret; lia].
+      destruct ((p_id p =? 6) || (p_id p =? 3)); [apply slack_ret; lia|].
+      destruct (fl_len (p_flags p) =? 0); [apply slack_lift; [discriminate|lia]|].
+      destruct (fl_len (p_flags p) =? 1). { apply (IHr self st (with_flags (fl_clear (p_flags p)) p)). exact Hb. }
+      destruct (f_lookup (fl_group (p_flags p)) st).
+      * apply slack_lift; [apply clus_add_np | lia].
+      * destruct (0 <? fl_pos (p_flags p)); [apply slack_ret; lia | apply slack_lift; [apply clus_add_np | lia]].
+    + intros self st x body Hb. cbn [unpack_b]. pose proof (len_nonneg body).
+      destruct (x <=? 0); [apply slack_ret; lia|].
+      destruct (packet_stream_spec body Hb) as [P1 P2].
+      destruct (outcome (packet_stream body)) as [[v r]|e|] eqn:Ep.
+      * destruct (packet_stream_cost body v r Hb Ep) as (C1 & C2 & C3 & _).
+        rewrite (abind_ok _ _ _ Ep).
+        destruct (IHr self st v C2) as [R1 R2].
+        destruct (outcome (recv_b f self st v)) as [st'|e|] eqn:Er.
+        -- rewrite (abind_ok _ _ _ Er). destruct (IHu self st' (x - 1) r C3) as [U1 U2].
+           unfold slack in *. rewrite Er in R2. unfold np, outcome, alloc in *. cbn [fst snd].
+           split; [exact U1|]. pose proof (len_nonneg (p_body v)). pose proof (len_nonneg r). lia.
+        -- rewrite (abind_err _ _ _ Er). unfold slack in *. rewrite Er in R2. unfold np, outcome, alloc in *. cbn [fst snd].
+           split; [discriminate|]. pose proof (len_nonneg (p_body v)). pose proof (len_nonneg r). lia.
+        -- exfalso. apply R1. exact Er.
+      * rewrite (abind_err _ _ _ Ep). unfold slack, np, outcome, alloc in *. cbn [fst snd]. split; [discriminate|]. lia.
+      * exfalso. apply P1. exact Ep.
+Qed.
+
+Theorem receive_bytes_spec self s : bytes_ok s = true ->
+  np (receive_bytes self s) /\ alloc (receive_bytes self s) <= 2 * len s + 2 * TagsMax.
+Proof.
+  intros Hs. unfold receive_bytes. pose proof (len_nonneg s).
+  destruct (packet_stream_spec s Hs) as [P1 P2].
+  destruct (outcome (packet_stream s)) as [[p r]|e|] eqn:Ep.
+  - destruct (packet_stream_cost s p r Hs Ep) as (C1 & C2 & C3 & _). rewrite (abind_ok _ _ _ Ep).
+    destruct (proj1 (recv_unpack_spec (S (S (length s)))) self [] p C2) as [R1 R2].
+    assert (Hsl : slack (recv_b (S (S (length s))) self [] p) <= TagsMax).
+    { unfold slack. generalize (outcome (recv_b (S (S (length s))) self [] p)). intros o. destruct o; unfold TagsMax; lia. }
+    pose proof (len_nonneg r). pose proof (len_nonneg (p_body p)).
+    destruct (outcome (recv_b (S (S (length s))) self [] p)) as [st|e|] eqn:Er.
+    + rewrite (abind_ok _ _ _ Er). unfold np, outcome, alloc in *. cbn [fst snd ret]. split; [discriminate|]. unfold TagsMax in *. lia.
+    + rewrite (abind_err _ _ _ Er). unfold np, outcome, alloc in *. cbn [fst snd]. split; [discriminate|]. unfold TagsMax in *. lia.
+    + exfalso. apply R1. exact Er.
+  - rewrite (abind_err _ _ _ Ep). unfold np, outcome, alloc in *. cbn [fst snd]. split; [discriminate|]. unfold TagsMax in *. lia.
+  - exfalso. apply P1. exact Ep.
+Qed.
+
+(* ===================================================================================
+   10. the fuel of the model loops is never exhausted (EFuel is unreachable): this is the
+       termination argument for decodePacket(s), the list loops and the container walk
+   =================================================================================== *)
+Definition nofuel {X} (r : res X) : Prop := r <> Err EFuel.
+
+Lemma nofuel_bind {X Y} (r : res X) (f : X -> res Y) :
+  nofuel r -> (forall x, r = Ok x -> nofuel (f x)) -> nofuel (bind r f).
+Proof. unfold nofuel. intros H1 H2. destruct r as [x|e|]; cbn [bind]; [apply H2; reflexivity | intros E; apply H1; inversion E; reflexivity | discriminate]. Qed.
+
+Lemma rd_u8_nf s : nofuel (rd_u8 s).
+Proof. destruct s; discriminate. Qed.
+Lemma rd_uN_nf n s : nofuel (rd_uN n s).
+Proof. unfold rd_uN, rd_fixed. destruct (len s <? n); discriminate. Qed.
+Lemma rd_prefix_nf s : nofuel (rd_prefix s).
+Proof.
+  unfold rd_prefix. apply nofuel_bind; [apply rd_u8_nf|]. intros [t r] _.
+  destruct (t =? 0); [discriminate|].
+  destruct ((t =? 1) || (t =? 2)). { apply nofuel_bind; [apply rd_u8_nf|]. intros [? ?] _. discriminate. }
+  destruct ((t =? 3) || (t =? 4)). { apply nofuel_bind; [apply rd_uN_nf|]. intros [? ?] _. discriminate. }
+  destruct ((t =? 5) || (t =? 6)). { apply nofuel_bind; [apply rd_uN_nf|]. intros [? ?] _. discriminate. }
+  destruct ((t =? 7) || (t =? 8)). { apply nofuel_bind; [apply rd_uN_nf|]. intros [? ?] _. discriminate. }
+  discriminate.
+Qed.
+Lemma rd_bytes_nf s : nofuel (rd_bytes s).
+Proof.
+  unfold rd_bytes. apply nofuel_bind; [apply rd_prefix_nf|]. intros [[l|] r] _; [|discriminate].
+  destruct (l =? 0); [discriminate|]. destruct (MaxSlice <? l); [discriminate|]. destruct (len r <? l); discriminate.
+Qed.
+Lemma rd_field_nf f s : nofuel (rd_field f s).
+Proof.
+  destruct f; cbn [rd_field]; (apply nofuel_bind; [first [apply rd_u8_nf | apply rd_uN_nf | apply rd_bytes_nf]|]); intros [? ?] _; discriminate.
+Qed.
+Lemma rd_fields_nf fs : forall s, nofuel (rd_fields fs s).
+Proof.
+  induction fs as [|f fs IH]; intros s; cbn [rd_fields]; [discriminate|].
+  apply nofuel_bind; [apply rd_field_nf|]. intros [? r] _. apply IH.
+Qed.
+
+(* ---- string list: every entry takes at least one byte ---- *)
+Lemma rd_strings_g_fuel fuel : forall k s, (length s < fuel)%nat -> outcome (rd_strings_g fuel k s) <> Err EFuel.
+Proof.
+  induction fuel as [|fuel IH]; intros k s Hf; [lia|]. cbn [rd_strings_g].
+  destruct (k <=? 0); [discriminate|]. rewrite abind_mk. unfold outcome. cbn [fst].
+  pose proof (rd_bytes_nf s) as Hn.
+  destruct (rd_bytes s) as [[b r]|e|] eqn:E.
+  - rewrite abind_lift_ok. apply rd_bytes_spec in E. apply adv_len in E. unfold len in E.
+    specialize (IH (k - 1) r ltac:(lia)). unfold outcome in IH.
+    destruct (fst (rd_strings_g fuel (k - 1) r)) as [[l r']|e|] eqn:Er.
+    + change (fst (rd_strings_g fuel (k - 1) r)) with (outcome (rd_strings_g fuel (k - 1) r)) in Er. rewrite (abind_ok _ _ _ Er). discriminate.
+    + change (fst (rd_strings_g fuel (k - 1) r)) with (outcome (rd_strings_g fuel (k - 1) r)) in Er. rewrite (abind_err _ _ _ Er). cbn. intros H; apply IH; exact H.
+    + change (fst (rd_strings_g fuel (k - 1) r)) with (outcome (rd_strings_g fuel (k - 1) r)) in Er. rewrite (abind_panic _ _ Er). discriminate.
+  - rewrite abind_lift_err. cbn. intros H. apply Hn. inversion H; reflexivity.
+  - discriminate.
+Qed.
+
+Theorem strlist_flat_fuel s : outcome (strlist_flat true s) <> Err EFuel.
+Proof.
+  unfold strlist_flat. pose proof (rd_prefix_nf s) as Hn.
+  destruct (rd_prefix s) as [[ol r]|e|] eqn:E.
+  - rewrite abind_lift_ok. destruct ol as [n|]; [|discriminate]. destruct (i64 n <=? 0); [discriminate|].
+    apply rd_strings_g_fuel. lia.
+  - rewrite abind_lift_err. cbn. intros H. apply Hn. inversion H; reflexivity.
+  - discriminate.
+Qed.
+
+(* ---- counted lists: every element takes at least one byte (the field lists are not empty) ---- *)
+Lemma rd_elems_fuel fuel : forall c fs s, fs <> [] -> (length s < fuel)%nat -> nofuel (rd_elems fuel c fs s).
+Proof.
+  induction fuel as [|fuel IH]; intros c fs s Hfs Hf; [lia|]. cbn [rd_elems].
+  destruct (c <=? 0); [discriminate|]. apply nofuel_bind; [apply rd_fields_nf|]. intros [u r] E.
+  apply rd_fields_spec in E. apply adv_len in E. apply IH; [exact Hfs|].
+  assert (1 <= len fs) by (destruct fs; [congruence | rewrite len_cons; pose proof (len_nonneg fs); lia]).
+  unfold len in *. lia.
+Qed.
+
+(* ---- DNS ---- *)
+Lemma dns_labels_fuel fuel : forall b i s, bytes_ok b = true -> 0 <= s -> (Z.to_nat (len b - s) < fuel)%nat ->
+  nofuel (dns_labels true fuel b i s).
+Proof.
+  induction fuel as [|fuel IH]; intros b i s Hb Hs Hf; [lia|]. cbn [dns_labels].
+  destruct (64 <=? i); [discriminate|].
+  destruct ((len b <=? i) || (len b <=? s)) eqn:E; [discriminate|].
+  destruct (idx_byte b s Hb ltac:(lia)) as (x & Ex & Hx). rewrite Ex. cbn [bind].
+  destruct (x =? 0); [discriminate|]. apply IH; [exact Hb | lia | lia].
+Qed.
+
+Lemma dns_q_fuel q : forall b s, bytes_ok b = true -> 0 <= s -> nofuel (dns_q true q b s).
+Proof.
+  induction q as [|q IH]; intros b s Hb Hs; cbn [dns_q]; [discriminate|].
+  apply nofuel_bind.
+  - apply dns_labels_fuel; [exact Hb | exact Hs |]. pose proof (len_nonneg b). unfold len in *. lia.
+  - intros s1 E. destruct (dns_labels_spec (S (length b)) b 0 s Hb Hs) as [_ H2]. specialize (H2 s1 E).
+    destruct (len b <=? s1 + 4); [discriminate|]. apply IH; [exact Hb | lia].
+Qed.
+
+Lemma dns_c_fuel c : forall b s, nofuel (dns_c true c b s).
+Proof.
+  induction c as [|c IH]; intros b s; cbn [dns_c]; [discriminate|].
+  destruct (len b <=? s + 10 + 1); [discriminate|].
+  apply nofuel_bind; [unfold nofuel, idx; destruct (s + 10 <? 0); [discriminate|]; destruct (nth_error b (Z.to_nat (s + 10))); discriminate|].
+  intros hi _. apply nofuel_bind; [unfold nofuel, idx; destruct (s + 10 + 1 <? 0); [discriminate|]; destruct (nth_error b (Z.to_nat (s + 10 + 1))); discriminate|].
+  intros lo _. apply IH.
+Qed.
+
+Lemma idx_nf (b : list Z) i : nofuel (idx b i).
+Proof. unfold nofuel, idx. destruct (i <? 0); [discriminate|]. destruct (nth_error b (Z.to_nat i)); discriminate. Qed.
+Lemma slice_nf (b : list Z) i j : nofuel (slice b i j).
+Proof. unfold nofuel, slice. destruct ((i <? 0) || (j <? i) || (len b <? j)); discriminate. Qed.
+
+Definition anofuel {X} (a : A X) : Prop := outcome a <> Err EFuel.
+Lemma anofuel_lift_bind {X Y} (r : res X) (f : X -> A Y) :
+  nofuel r -> (forall x, r = Ok x -> anofuel (f x)) -> anofuel (abind (lift r) f).
+Proof.
+  unfold nofuel, anofuel. intros H1 H2. destruct r as [x|e|].
+  - rewrite abind_lift_ok. apply H2. reflexivity.
+  - rewrite abind_lift_err. cbn. intros E. apply H1. inversion E; reflexivity.
+  - cbn. discriminate.
+Qed.
+
+Lemma dns_t_fuel t : forall b s acc, anofuel (dns_t true t b s acc).
+Proof.
+  induction t as [|t IH]; intros b s acc; cbn [dns_t]; [discriminate|].
+  destruct (len b <=? s + 6); [discriminate|].
+  do 6 (apply anofuel_lift_bind; [apply idx_nf|]; intros ? _).
+  destruct (negb _); [discriminate|]. cbn [andb].
+  destruct (len b <=? s + 10 + 1); [discriminate|].
+  do 2 (apply anofuel_lift_bind; [apply idx_nf|]; intros ? _).
+  destruct (len b <? _); [discriminate|].
+  apply anofuel_lift_bind; [apply slice_nf|]. intros d _.
+  rewrite abind_mk. unfold anofuel, outcome. cbn [fst]. apply IH.
+Qed.
+
+Lemma dns_packet_fuel b : bytes_ok b = true -> anofuel (dns_packet true b).
+Proof.
+  intros Hb. unfold dns_packet.
+  apply anofuel_lift_bind; [destruct (len b <? 12); discriminate|]. intros ? _.
+  do 6 (apply anofuel_lift_bind; [apply idx_nf|]; intros ? _).
+  apply anofuel_lift_bind; [apply dns_q_fuel; [exact Hb | lia]|]. intros s1 _.
+  apply anofuel_lift_bind; [apply dns_c_fuel|]. intros s2 _.
+  apply dns_t_fuel.
+Qed.
+
+Lemma dns_packets_fuel fuel : forall b i acc, bytes_ok b = true -> 0 <= i -> (Z.to_nat (len b - i) < fuel)%nat ->
+  anofuel (dns_packets true fuel b i acc).
+Proof.
+  induction fuel as [|fuel IH]; intros b i acc Hb Hi Hf; [lia|]. cbn [dns_packets].
+  destruct (len b <=? i) eqn:E; [discriminate|].
+  pose proof (dns_packet_fuel (drop i b) (bytes_ok_drop _ _ Hb)) as Hp.
+  destruct (dns_packet_spec (drop i b) (bytes_ok_drop _ _ Hb)) as (P1 & _ & P3).
+  unfold anofuel in *.
+  destruct (outcome (dns_packet true (drop i b))) as [[n w]|e|] eqn:Eo.
+  - rewrite (abind_ok _ _ _ Eo). cbn [outcome fst]. destruct (P3 n w eq_refl) as [_ P5].
+    apply IH; [exact Hb | lia | lia].
+  - rewrite (abind_err _ _ _ Eo). cbn. exact Hp.
+  - exfalso. apply P1. exact Eo.
+Qed.
+
+Theorem dns_read_fuel b : bytes_ok b = true -> outcome (dns_read true b) <> Err EFuel.
+Proof.
+  intros Hb. unfold dns_read.
+  pose proof (dns_packets_fuel (S (length b)) b 0 [] Hb ltac:(lia)) as H.
+  assert (Hf : (Z.to_nat (len b - 0) < S (length b))%nat) by (unfold len; lia). specialize (H Hf). unfold anofuel in H.
+  destruct (outcome (dns_packets true (S (length b)) b 0 [])) as [[n w]|e|] eqn:Eo.
+  - rewrite (abind_ok _ _ _ Eo). cbn [outcome fst]. destruct (n =? len b); discriminate.
+  - rewrite (abind_err _ _ _ Eo). cbn. intros E. apply H. inversion E; reflexivity.
+  - rewrite (abind_panic _ _ Eo). discriminate.
+Qed.
+
+Lemma counted_fuel c esz fs r : fs <> [] -> outcome (counted true c esz fs r) <> Err EFuel.
+Proof.
+  intros Hfs. unfold counted. cbn [andb]. destruct (len r <? c); [discriminate|].
+  rewrite abind_mk. unfold outcome. cbn [fst].
+  apply (anofuel_lift_bind (rd_elems (S (length r)) c fs r)); [apply rd_elems_fuel; [exact Hfs | lia]|].
+  intros [u r'] _. discriminate.
+Qed.
+
+(* ---- the container walk ---- *)
+Lemma read_full_flat_nf n s : nofuel (read_full_flat n s).
+Proof. unfold nofuel, read_full_flat. destruct (n <=? 0); [discriminate|]. destruct (is_nil s); [discriminate|]. destruct (len s <? n); discriminate. Qed.
+Lemma rd_devid_nf s : nofuel (rd_devid s).
+Proof.
+  unfold rd_devid. apply nofuel_bind; [apply read_full_flat_nf|]. intros [i r] _.
+  destruct i as [|x i]; [discriminate|]. destruct (x =? 0); discriminate.
+Qed.
+Lemma rd_tags_stream_nf k : forall s, nofuel (rd_tags_stream k s).
+Proof.
+  induction k as [|k IH]; intros s; cbn [rd_tags_stream]; [discriminate|].
+  apply nofuel_bind; [apply rd_uN_nf|]. intros [t r] _. destruct (t =? 0); [discriminate|].
+  apply nofuel_bind; [apply IH|]. intros [? ?] _. discriminate.
+Qed.
+Lemma packet_stream_fuel s : anofuel (packet_stream s).
+Proof.
+  unfold packet_stream.
+  apply anofuel_lift_bind; [apply rd_u8_nf|]. intros [? ?] _.
+  apply anofuel_lift_bind; [apply rd_uN_nf|]. intros [? ?] _.
+  apply anofuel_lift_bind; [apply rd_uN_nf|]. intros [nt ?] _.
+  apply anofuel_lift_bind; [apply rd_uN_nf|]. intros [? ?] _.
+  apply anofuel_lift_bind; [apply rd_devid_nf|]. intros [? ?] _.
+  rewrite abind_mk. unfold anofuel, outcome. cbn [fst].
+  apply (anofuel_lift_bind (rd_tags_stream _ _)); [apply rd_tags_stream_nf|]. intros [? ?] _.
+  apply anofuel_lift_bind; [apply rd_bytes_nf|]. intros [? ?] _. discriminate.
+Qed.
+
+Lemma clus_add_nf g c p st : nofuel (clus_add g c p st).
+Proof.
+  unfold nofuel, clus_add. destruct (match c_first c with Some (i, j) => negb ((i =? p_id p) && (j =? p_job p)) | None => false end); [discriminate|].
+  destruct (is_nil (p_body p)); cbn [c_n c_e].
+  - destruct (c_n c =? 0); [discriminate|]. destruct (_ <? _); discriminate.
+  - destruct (c_n c + 1 =? 0); [discriminate|]. destruct (_ <? _); discriminate.
+Qed.
+
+(* a packet that is neither a container nor a fragment is finished in one step *)
+Lemma recv_b_plain f self st q : fl_bit 1 (p_flags q) = false -> fl_bit 0 (p_flags q) = false ->
+  anofuel (recv_b (S f) self st q).
+Proof.
+  intros H1 H0. cbn [recv_b]. unfold anofuel.
+  destruct (_ && _ && _); [discriminate|]. destruct (_ && _); [discriminate|].
+  destruct (fl_bit 6 (p_flags q)); [discriminate|]. destruct (_ && _); [discriminate|].
+  rewrite H1, H0. discriminate.
+Qed.
+
+Lemma fl_clear_bits fl : fl_bit 1 fl = false -> fl_bit 0 fl = true ->
+  fl_bit 1 (fl_clear fl) = false /\ fl_bit 0 (fl_clear fl) = false.
+Proof.
+  unfold fl_bit, fl_clear. intros H1 H0. change 65536 with (2 ^ 16).
+  rewrite !Z.lxor_spec, !Z.mod_pow2_bits_low by lia. rewrite H1, H0. split; reflexivity.
+Qed.
+
+Lemma recv_unpack_fuel fuel :
+  (forall self st p, bytes_ok (p_body p) = true -> (length (p_body p) + 2 < fuel)%nat -> anofuel (recv_b fuel self st p)) /\
+  (forall self st x body, bytes_ok body = true -> (length body < fuel)%nat -> anofuel (unpack_b fuel self st x body)).
+Proof.
+  induction fuel as [|f [IHr IHu]]; [split; intros; lia|]. split.
+  - intros self st p Hb Hf. cbn [recv_b]. unfold anofuel.
+    destruct (_ && _ && _); [discriminate|]. destruct (_ && _); [discriminate|].
+    destruct (fl_bit 6 (p_flags p)); [discriminate|]. destruct (_ && _); [discriminate|].
+    destruct (fl_bit 1 (p_flags p)) eqn:E1.
+    { destruct (fl_len (p_flags p) =? 0); [discriminate|]. apply IHu; [exact Hb | lia]. }
+    destruct (fl_bit 0 (p_flags p)) eqn:E0; [|discriminate].
+    destruct (_ || _); [discriminate|]. destruct (fl_len (p_flags p) =? 0); [discriminate|].
+    destruct (fl_len (p_flags p) =? 1).
+    { destruct f as [|f']; [lia|]. destruct (fl_clear_bits _ E1 E0) as [B1 B0]. apply recv_b_plain; cbn [with_flags p_flags]; assumption. }
+    destruct (f_lookup _ st).
+    + apply clus_add_nf.
+    + destruct (0 <? _); [discriminate | apply clus_add_nf].
+  - intros self st x body Hb Hf. cbn [unpack_b]. unfold anofuel.
+    destruct (x <=? 0); [discriminate|].
+    pose proof (packet_stream_fuel body) as Hp. destruct (packet_stream_spec body Hb) as [P1 _].
+    destruct (outcome (packet_stream body)) as [[v r]|e|] eqn:Ep.
+    + destruct (packet_stream_cost body v r Hb Ep) as (_ & C2 & C3 & C4). rewrite (abind_ok _ _ _ Ep). cbn [outcome fst].
+      pose proof (len_nonneg r). pose proof (len_nonneg (p_body v)). unfold len in *.
+      assert (Hr : anofuel (recv_b f self st v)) by (apply IHr; [exact C2 | lia]).
+      destruct (outcome (recv_b f self st v)) as [st'|e|] eqn:Er.
+      * rewrite (abind_ok _ _ _ Er). cbn [fst]. apply IHu; [exact C3 | lia].
+      * rewrite (abind_err _ _ _ Er). cbn. unfold anofuel in Hr. rewrite Er in Hr. exact Hr.
+      * rewrite (abind_panic _ _ Er). discriminate.
+    + rewrite (abind_err _ _ _ Ep). cbn. unfold anofuel in Hp. rewrite Ep in Hp. intros E. apply Hp. inversion E; reflexivity.
+    + exfalso. apply P1. exact Ep.
+Qed.
+
+Theorem receive_bytes_fuel self s : bytes_ok s = true -> outcome (receive_bytes self s) <> Err EFuel.
+Proof.
+  intros Hs. unfold receive_bytes.
+  pose proof (packet_stream_fuel s) as Hp. destruct (packet_stream_spec s Hs) as [P1 _].
+  destruct (outcome (packet_stream s)) as [[p r]|e|] eqn:Ep.
+  - destruct (packet_stream_cost s p r Hs Ep) as (_ & C2 & _ & C4). rewrite (abind_ok _ _ _ Ep). cbn [outcome fst].
+    pose proof (len_nonneg r). unfold len in *.
+    assert (Hr : anofuel (recv_b (S (S (length s))) self [] p)) by (apply (proj1 (recv_unpack_fuel _)); [exact C2 | lia]).
+    unfold anofuel in Hr.
+    destruct (outcome (recv_b (S (S (length s))) self [] p)) as [st|e|] eqn:Er.
+    + rewrite (abind_ok _ _ _ Er). discriminate.
+    + rewrite (abind_err _ _ _ Er). cbn. intros E. apply Hr. inversion E; reflexivity.
+    + rewrite (abind_panic _ _ Er). discriminate.
+  - rewrite (abind_err _ _ _ Ep). cbn. unfold anofuel in Hp. rewrite Ep in Hp. intros E. apply Hp. inversion E; reflexivity.
+  - exfalso. apply P1. exact Ep.
+Qed.
